@@ -5,6 +5,12 @@ package c18
 //   {{#each name}}      start marker of a row loop      {{/each}}  end marker
 //   {{#image name}}     image placeholder
 // Matches are leftmost and non-overlapping, as a reader of the documentation would find them from left to right.
+//
+// The documentation writes every directive with exactly ONE blank (U+0020) between the keyword and the name. A spelling
+// with another amount/kind of white space there ("{{#each  rows}}", "{{#each\trows}}") is not documented; the scanner
+// still reports it, marked lenient, and the oracle accepts two readings of it (see ref.go): processed completely like the
+// documented spelling, or left completely alone as the literal text it is by the documentation. Anything else around a
+// name ("{{ name }}", "{{#each rows }}", "{{ /each}}", "{{#Each rows}}") is not reported at all: literal text.
 
 import "fmt"
 
@@ -13,8 +19,9 @@ var sprintf = fmt.Sprintf
 func quote(s string) string { return fmt.Sprintf("%q", s) }
 
 type span struct {
-	s, e int // rune offsets [s,e)
-	name string
+	s, e    int // rune offsets [s,e)
+	name    string
+	lenient bool // directive spelled with white space other than the one documented blank
 }
 
 func isWord(r rune) bool {
@@ -45,7 +52,7 @@ func scanVars(t []rune) []span {
 				j++
 			}
 			if j > i+2 && hasAt(t, j, "}}") {
-				out = append(out, span{i, j + 2, string(t[i+2 : j])})
+				out = append(out, span{s: i, e: j + 2, name: string(t[i+2 : j])})
 				i = j + 2
 				continue
 			}
@@ -55,7 +62,7 @@ func scanVars(t []rune) []span {
 	return out
 }
 
-// scanDirective finds {{#kw<spaces>name}}.
+// scanDirective finds {{#kw<spaces>name}}; lenient is set unless <spaces> is the one documented blank.
 func scanDirective(t []rune, kw string) []span {
 	var out []span
 	open := "{{#" + kw
@@ -71,7 +78,7 @@ func scanDirective(t []rune, kw string) []span {
 				n++
 			}
 			if k > j && n > k && hasAt(t, n, "}}") {
-				out = append(out, span{i, n + 2, string(t[k:n])})
+				out = append(out, span{s: i, e: n + 2, name: string(t[k:n]), lenient: !(k == j+1 && t[j] == ' ')})
 				i = n + 2
 				continue
 			}
@@ -86,11 +93,50 @@ func scanLiteral(t []rune, lit string) []span {
 	n := len([]rune(lit))
 	for i := 0; i < len(t); {
 		if hasAt(t, i, lit) {
-			out = append(out, span{i, i + n, ""})
+			out = append(out, span{s: i, e: i + n})
 			i += n
 			continue
 		}
 		i++
+	}
+	return out
+}
+
+// condSpan is a conditional block {{#if name}}body[{{else}}other]{{/if}} (the first {{/if}} after the opening marker ends
+// it, the first {{else}} inside splits it). The property does not speak about conditionals; the oracle only uses these
+// spans to know which part of a paragraph's text belongs to a directive (see ref.go).
+type condSpan struct {
+	span
+	bodyS, bodyE int // [bodyS,bodyE): text kept when the condition holds
+	elseS, elseE int // [elseS,elseE): text kept otherwise (-1,-1 without {{else}})
+}
+
+func scanConds(t []rune) []condSpan {
+	var out []condSpan
+	from := 0
+	for _, op := range scanDirective(t, "if") {
+		if op.s < from {
+			continue
+		}
+		end := -1
+		for k := op.e; k < len(t); k++ {
+			if hasAt(t, k, "{{/if}}") {
+				end = k
+				break
+			}
+		}
+		if end < 0 {
+			break
+		}
+		c := condSpan{span: span{s: op.s, e: end + len("{{/if}}"), name: op.name, lenient: op.lenient}, bodyS: op.e, bodyE: end, elseS: -1, elseE: -1}
+		for k := op.e; k+len("{{else}}") <= end; k++ {
+			if hasAt(t, k, "{{else}}") {
+				c.bodyE, c.elseS, c.elseE = k, k+len("{{else}}"), end
+				break
+			}
+		}
+		out = append(out, c)
+		from = c.e
 	}
 	return out
 }
